@@ -22,3 +22,6 @@ CHECKS["C15"] = check_conc.run
 
 import check_export
 CHECKS["C18"] = check_export.run
+
+import check_assemble
+CHECKS["C17"] = check_assemble.run
